@@ -148,12 +148,24 @@ func (w *world) admit(op *simkube.AdmissionOp) error {
 			pp := metav1.DeletionPropagation(fmt.Sprint(p))
 			do.PropagationPolicy = &pp
 		}
+		var dry *bool
+		if op.DryRun {
+			// The API server calls a webhook for a dry-run request only if
+			// the webhook declares it has no side effects on dry runs.
+			if wh.SideEffects == nil || (*wh.SideEffects != admregv1.SideEffectClassNone && *wh.SideEffects != admregv1.SideEffectClassNoneOnDryRun) {
+				return kerrors.NewBadRequest(fmt.Sprintf("admission webhook %q does not support dry run", wh.Name))
+			}
+			do.DryRun = []string{metav1.DryRunAll}
+			t := true
+			dry = &t
+		}
 		doRaw, _ := json.Marshal(do)
 		req := admission.Request{AdmissionRequest: admissionv1.AdmissionRequest{
 			Operation: admissionv1.Delete,
 			Name:      op.Key.Name,
 			OldObject: runtime.RawExtension{Raw: raw},
 			Options:   runtime.RawExtension{Raw: doRaw},
+			DryRun:    dry,
 		}}
 		rsp := w.handler.Handle(context.Background(), req)
 		if !rsp.Allowed {
@@ -464,19 +476,23 @@ func body(r *explore.Run, rep *report.R, sc string, depth int, form usageForm, p
 			}
 			pol := []string{"", "Background", "Foreground", "Orphan"}[r.Free(4, fmt.Sprintf("policy%d", step))]
 			ver := []string{"v1", "v2"}[r.Free(2, fmt.Sprintf("version%d", step))]
+			dryRun := r.Free(2, fmt.Sprintf("dry-run%d", step)) == 1
 			all, ready := w.usagesNaming()
 			var opts []client.DeleteOption
 			if pol != "" {
 				opts = append(opts, client.PropagationPolicy(metav1.DeletionPropagation(pol)))
 			}
+			if dryRun {
+				opts = append(opts, client.DryRunAll)
+			}
 			before := s.Peek(usedKey)
 			err := user.Delete(ctx, res(usedGK, ver, "r"), opts...)
 			after := s.Peek(usedKey)
-			desc = fmt.Sprintf("DELETE used via %s policy=%q -> err=%v (usages naming it %v, ready %v)", ver, pol, err, all, ready)
+			desc = fmt.Sprintf("DELETE used via %s policy=%q dry-run=%v -> err=%v (usages naming it %v, ready %v)", ver, pol, dryRun, err, all, ready)
 			deleted := after == nil || (before.GetDeletionTimestamp() == nil && after.GetDeletionTimestamp() != nil)
 			if len(ready) > 0 {
 				if deleted || (err == nil && before.GetDeletionTimestamp() == nil) {
-					r.Failf("M1/delete-allowed-while-in-use", "DELETE of the used resource through %s with policy %q was allowed although Usage(s) %v are ready and not being deleted", ver, pol, ready)
+					r.Failf("M1/delete-allowed-while-in-use", "DELETE of the used resource through %s with policy %q (dry run: %v) was allowed although Usage(s) %v are ready and not being deleted", ver, pol, dryRun, ready)
 				}
 				want := pol
 				if want == "" {
